@@ -2,16 +2,18 @@
    msgser <dag|-> <msg>            model `MessageAny.serialize`        -> ok <hash> <bits> <ref hashes> | err
    msgenc <dag|-> <msg> <ib>       spec encoder, i/b = Either choices   -> ok <hash> <bits> <ref hashes> | err
    msgdec <dag> <node>             spec decoder `decodeMessage`         -> ok <canonical msg> | err
+   msgdecs <dag> <node>            strict reader `decodeMessageStrict` (address classes of `Message X` proper)
    msgpar <dag> <node>             model `MessageAny.deserialize`       -> ok <canonical msg> | err
    siser/sienc, sidec/sipar ; ccser/ccenc, ccdec/ccpar : same for StateInit / CurrencyCollection
-   wser <dag|-> <wrapper>  ;  wpar <dag> <node> <kind>                   HashUpdate, wallet data, NFT item data
+   wser/wenc <dag|-> <wrapper>  ;  wdec/wpar <dag> <node> <kind>        HashUpdate, wallet data, NFT item / sale data
+   wmser <dag> <mode> <msg> ; wmenc <dag> <mode> <msg> <ib>              WalletMessage (wdec/wpar kind `wm`)
    msg  := <info>/<init>/<body node>
    info := I;a;b;c;<addr>;<addr>;grams;<dict node|->;ihr;fwd;lt;at | X;<addr>;<addr>;fee | O;<addr>;<addr>;lt;at
    init := - | <sd|->;<tt|->;<code|->;<data|->;<lib|->        (tt = two 0/1 chars)
    addr := n | e:len:val | s:wc:hash[:depth:pfx]
 -/
 import TonVerif.Drv.Builder
-import TonVerif.Model.Message
+import TonVerif.Model.Wrappers
 
 namespace TonVerif.Drv
 open TonVerif TonVerif.Model TonVerif.Spec.Tlb
@@ -98,24 +100,89 @@ def choices (s : String) : Option (Bool × Bool) :=
 
 def showOpt {α} (f : α → String) (o : Option α) : String := match o with | some a => "ok " ++ f a | none => "err"
 
-/-- wrappers -/
-def wser (ctx : Ctx) (s : String) : Option String :=
-  let run (op : BOp RCell) : String := showCell (Message.cellOf rops op)
+/-! wrappers: `<w>` := hu;old;new | v3;seqno;wid;pk | v4;seqno;wid;pk;<plugins node|-> | hl;wid;last_cleaned;pk;<queries node|->
+   | nft;index;<addr>;<addr>;<content node> | fees;<addr>;fee;<addr>;royalty
+   | sale;<0|1>;created_at;<addr>;<addr>;<addr>;price;<addr>;fee;<addr>;royalty;<0|1>   (the last four before the flag = fees)
+   the wallet message has its own ops (its message token contains `;`): wmser/wmenc <dag> <mode> <msg> [<ib>] -/
+
+inductive Wr where
+  | hu (h : HashUpd) | v3 (w : WalletV3) | v4 (w : WalletV4 RCell) | hl (w : Highload RCell)
+  | nft (n : NftItem RCell) | fees (f : SaleFees) | sale (s : SaleData)
+
+def pWr (ctx : Ctx) (s : String) : Option Wr :=
   match s.splitOn ";" with
-  | ["hu", o, n] => do pure (run (Message.hashUpdateB (← hexArg o) (← hexArg n)))
-  | ["v3", sq, w, pk] => do pure (run (Message.walletV3B (← sq.toInt?) (← w.toInt?) (← hexArg pk)))
-  | ["v4", sq, w, pk, p] => do pure (run (Message.walletV4B (← sq.toInt?) (← w.toInt?) (← hexArg pk) (← optNode ctx p)))
-  | ["hl", w, lc, pk] => do pure (run (Message.highloadB (← w.toInt?) (← lc.toInt?) (← hexArg pk)))
-  | ["nft", i, c, o, r] => do pure (run (Message.nftItemB (← i.toInt?) (← pAddr c) (← pAddr o) (← node ctx r)))
+  | ["hu", o, n] => do pure (.hu ⟨← hexArg o, ← hexArg n⟩)
+  | ["v3", sq, w, pk] => do pure (.v3 ⟨← sq.toInt?, ← w.toInt?, ← hexArg pk⟩)
+  | ["v4", sq, w, pk, p] => do pure (.v4 ⟨← sq.toInt?, ← w.toInt?, ← hexArg pk, ← optNode ctx p⟩)
+  | ["hl", w, lc, pk, q] => do pure (.hl ⟨← w.toInt?, ← lc.toInt?, ← hexArg pk, ← optNode ctx q⟩)
+  | ["nft", i, c, o, r] => do pure (.nft ⟨← i.toInt?, ← pAddr c, ← pAddr o, ← node ctx r⟩)
+  | ["fees", a, f, b, r] => do pure (.fees ⟨← pAddr a, ← f.toInt?, ← pAddr b, ← r.toInt?⟩)
+  | ["sale", c, t, m, n, o, p, a, f, b, r, e] => do
+    pure (.sale ⟨← pBool c, ← t.toInt?, ← pAddr m, ← pAddr n, ← pAddr o, ← p.toInt?,
+      ⟨← pAddr a, ← f.toInt?, ← pAddr b, ← r.toInt?⟩, ← pBool e⟩)
   | _ => none
 
-def wpar (c : RCell) (kind : String) : Option String :=
-  let s : Slice RCell := ⟨c.bits, c.refs⟩
+def showFees (f : SaleFees) : String :=
+  s!"{showAddr f.marketplaceFeeAddress};{f.marketplaceFee};{showAddr f.royaltyAddress};{f.royaltyAmount}"
+
+def showHu (h : HashUpd) : String := s!"{dashHex h.oldHash};{dashHex h.newHash}"
+def showV3 (w : WalletV3) : String := s!"{w.seqno};{w.walletId};{dashHex w.publicKey}"
+def showV4 (w : WalletV4 RCell) : String := s!"{w.seqno};{w.walletId};{dashHex w.publicKey};{optHash w.plugins}"
+def showHl (w : Highload RCell) : String := s!"{w.walletId};{w.lastCleaned};{dashHex w.publicKey};{optHash w.oldQueries}"
+def showNft (n : NftItem RCell) : String := s!"{n.index};{showAddr n.collection};{showAddr n.owner};{n.content.hashHex}"
+def showSale (s : SaleData) : String :=
+  s!"{b01 s.isComplete};{s.createdAt};{showAddr s.marketplace};{showAddr s.nft};{showAddr s.nftOwner};{s.fullPrice};{showFees s.fees};{b01 s.canDeployByExternal}"
+def showWm (w : WalletMsg RCell) : String := s!"{w.sendMode}~{showMsg w.message}"
+
+/-- model `serialize` -/
+def wser (ctx : Ctx) (s : String) : Option String := do
+  let w ← pWr ctx s
+  pure (showCell (match w with
+    | .hu h => Message.serializeHashUpd rops h
+    | .v3 w => Message.serializeWalletV3 rops w
+    | .v4 w => Message.serializeWalletV4 rops w
+    | .hl w => Message.serializeHighload rops w
+    | .nft n => Message.serializeNftItem rops n
+    | .fees f => Message.serializeSaleFees rops f
+    | .sale s => Message.serializeSaleData rops s))
+
+/-- spec encoder -/
+def wenc (ctx : Ctx) (s : String) : Option String := do
+  let w ← pWr ctx s
+  pure (showCell (encCell rops (match w with
+    | .hu h => encHashUpd h
+    | .v3 w => encWalletV3 w
+    | .v4 w => encWalletV4 w
+    | .hl w => encHighload w
+    | .nft n => encNftItem n
+    | .fees f => encSaleFees f
+    | .sale s => encSaleData rops s)))
+
+/-- spec decoder -/
+def wdec (c : RCell) (kind : String) : Option String :=
   match kind with
-  | "hu" => some (showOpt (fun (p : Bytes × Bytes) => s!"{dashHex p.1};{dashHex p.2}") (Message.loadHashUpdate s).2)
-  | "v3" => some (showOpt (fun (p : Int × Int × Bytes) => s!"{p.1};{p.2.1};{dashHex p.2.2}") (Message.loadWalletV3 s).2)
-  | "v4" => some (showOpt (fun (p : Int × Int × Bytes × Option RCell) => s!"{p.1};{p.2.1};{dashHex p.2.2.1};{optHash p.2.2.2}") (Message.loadWalletV4 s).2)
-  | "nft" => some (showOpt (fun (p : Int × Addr × Addr × RCell) => s!"{p.1};{showAddr p.2.1};{showAddr p.2.2.1};{p.2.2.2.hashHex}") (Message.loadNftItem s).2)
+  | "hu" => some (showOpt showHu (decodeHashUpd rops c))
+  | "v3" => some (showOpt showV3 (decodeWalletV3 rops c))
+  | "v4" => some (showOpt showV4 (decodeWalletV4 rops c))
+  | "hl" => some (showOpt showHl (decodeHighload rops c))
+  | "nft" => some (showOpt showNft (decodeNftItem rops c))
+  | "fees" => some (showOpt showFees (decodeSaleFees rops c))
+  | "sale" => some (showOpt showSale (decodeSaleData rops c))
+  | "wm" => some (showOpt showWm (decodeWalletMsg rops c))
+  | _ => none
+
+/-- model `deserialize` -/
+def wpar (c : RCell) (kind : String) : Option String :=
+  match kind with
+  | "hu" => some (showOpt showHu (Message.deserializeHashUpd rops c))
+  | "v3" => some (showOpt showV3 (Message.deserializeWalletV3 rops c))
+  | "v4" => some (showOpt showV4 (Message.deserializeWalletV4 rops c))
+  | "hl" => some (showOpt showHl (Message.deserializeHighload rops c))
+  | "nft" => some (showOpt showNft (Message.deserializeNftItem rops c))
+  | "fees" => some (showOpt showFees (Message.deserializeSaleFees rops c))
+  | "sale" => some (showOpt showSale (Message.deserializeSaleData rops c))
+  | "wm" => some (showOpt (fun (o : Option (WalletMsg RCell)) => match o with | some w => showWm w | none => "None")
+      (Message.deserializeWalletMsg rops c))
   | _ => none
 
 def handle? (op : String) (args : List String) : Option String :=
@@ -125,6 +192,7 @@ def handle? (op : String) (args : List String) : Option String :=
       let (i, b) ← choices ch
       pure (showCell (encMessage rops (← pMsg ctx m) i b)))
   | "msgdec", [dag, n] => some (withDag dag fun ctx => do pure (showOpt showMsg (decodeMessage rops (← node ctx n))))
+  | "msgdecs", [dag, n] => some (withDag dag fun ctx => do pure (showOpt showMsg (decodeMessageStrict rops (← node ctx n))))
   | "msgpar", [dag, n] => some (withDag dag fun ctx => do pure (showOpt showMsg (Message.deserialize rops (← node ctx n))))
   | "siser", [dag, s] => some (withDag dag fun ctx => do pure (showCell (Message.serializeStateInit rops (← pStateInit ctx s))))
   | "sienc", [dag, s] => some (withDag dag fun ctx => do pure (showCell ((encStateInit (← pStateInit ctx s)).bind (mkChunk rops))))
@@ -137,7 +205,14 @@ def handle? (op : String) (args : List String) : Option String :=
   | "ccdec", [dag, n] => some (withDag dag fun ctx => do pure (showOpt showCurrency (decodeCurrency rops (← node ctx n))))
   | "ccpar", [dag, n] => some (withDag dag fun ctx => do pure (showOpt showCurrency (Message.deserializeCurrency rops (← node ctx n))))
   | "wser", [dag, w] => some (withDag dag fun ctx => wser ctx w)
+  | "wenc", [dag, w] => some (withDag dag fun ctx => wenc ctx w)
+  | "wdec", [dag, n, k] => some (withDag dag fun ctx => do wdec (← node ctx n) k)
   | "wpar", [dag, n, k] => some (withDag dag fun ctx => do wpar (← node ctx n) k)
+  | "wmser", [dag, mode, m] => some (withDag dag fun ctx => do
+      pure (showCell (Message.serializeWalletMsg rops ⟨← mode.toInt?, ← pMsg ctx m⟩)))
+  | "wmenc", [dag, mode, m, ch] => some (withDag dag fun ctx => do
+      let (i, b) ← choices ch
+      pure (showCell (encCell rops (encWalletMsg rops ⟨← mode.toInt?, ← pMsg ctx m⟩ i b))))
   | _, _ => none
 
 end Msg
